@@ -50,7 +50,7 @@ func genesisRoundTrip(w *World, ctx sdk.Context, name string) (ok bool, why stri
 // mode gentrip (exploration, not registered): after a history, which modules' round trip is the identity on every store?
 func runGenTrip(t *testing.T, seed int64, n int, out *Out) {
 	hseed := seed
-	wv := histWorldVariant{AtomPrice: "5", Sweep: "default", Inflation: os.Getenv("VERIF_INFLATION") != ""}
+	wv := histWorldVariant{AtomPrice: "5", Sweep: "default", Inflation: os.Getenv("VERIF_INFLATION") != "", ExtRewards: true}
 	w, std := histWorld(t, hseed, wv)
 	h := &Hist{w: w, std: std, r: rand.New(rand.NewSource(hseed))}
 	stats := map[string]int{}
